@@ -12,7 +12,12 @@ A *closure* is a dict
 Protocol sent to `drv_emit` (identifiers are interned to numbers, `padding_<k>_` is 1000000+k):
     T <table> ...                      the native tables, once
     CASE <id> <autoPad> <documented> <skipHdr>
+    FILE <core> <abs path comps>       start of the next file of the closure (parse order, imports first), its resolved path
+    PKG <core_defs> <abs path comps>   the package directory (what `core_defs/*.yaml` are relative to)
+    ENV <n> <cwd comps> <abs> <segs>   the environment of one real compile run: working directory, root path as spelled
+    SRC <name> <segs>                  `type_source` of one class of the real Python output
     ITEM <core> <kind> ...             the closure flattened in parse order, lengths evaluated
+    YAML sec <k> <n> | <item>          the real combined YAML, section by section in file order (canonical lines)
     OUTCOME ok | err <alignment|tooLarge|syntax|internal>
     REG a|s|m ...                      aliases / structs / messages of the real Parser object
     REG2 ...                           the same after re-parsing the combined YAML
@@ -202,7 +207,8 @@ def flatten(cl: Dict[str, Any]) -> List[Tuple[str, Dict[str, Any]]]:
         seen.append(fn)
         fs = cl["files"][fn]
         for i in fs.get("imports", []):
-            walk(i)
+            # an import is spelled relative to the importing file's directory (the parser chdir's there)
+            walk(os.path.normpath(os.path.join(os.path.dirname(fn), i)))
         order.append((fn, fs))
 
     walk(cl["root"])
@@ -220,7 +226,22 @@ def core_closure() -> Dict[str, Any]:
     return CORE_CACHE["cl"]
 
 
-def item_lines(cl: Dict[str, Any], I: Interner, hashes: Dict[str, str]) -> List[str]:
+def path_toks(p, I: Interner) -> List[str]:
+    """components of a resolved absolute path, interned"""
+    return [str(I(c)) for c in Path(p).parts[1:]]
+
+
+def spelled_toks(p, I: Interner) -> List[str]:
+    """a path as spelled (what `pathlib.Path(p)` keeps of it): abs flag, then `^` for `..`, `.` or interned names"""
+    pp = Path(p)
+    parts = [c for c in pp.parts if c != "/"]
+    return ["1" if pp.is_absolute() else "0"] + ["^" if c == ".." else "." if c == "." else str(I(c)) for c in parts]
+
+
+def item_lines(cl: Dict[str, Any], I: Interner, hashes: Dict[str, str], with_files: bool = False,
+               src_dir: Optional[Path] = None) -> List[str]:
+    """ITEM lines in parse order; with_files: a `FILE <core>` line before the items of each file (the driver rebuilds the
+    file-by-file closure `Model/Combined.lean` works on from them)"""
     L: List[str] = []
     groups: List[Tuple[int, List[Tuple[str, Dict[str, Any]]]]] = []
     if cl.get("coredefs"):
@@ -229,6 +250,12 @@ def item_lines(cl: Dict[str, Any], I: Interner, hashes: Dict[str, str]) -> List[
     groups.append((0, flatten(cl)))
     for core, files in groups:
         for fn, fs in files:
+            if with_files:
+                where: List[str] = []
+                if src_dir is not None:
+                    base = (C.REPO / "src" / "pyrtma" / "core_defs") if core else src_dir
+                    where = path_toks(os.path.realpath(base / fn), I)
+                L.append(" ".join(["FILE", str(core)] + where))
             for n, e, v in fs.get("constants", []):
                 if isinstance(v, float):
                     L.append(f"ITEM {core} const {I(n)} f {struct.unpack('<Q', struct.pack('<d', v))[0]}")
@@ -258,8 +285,73 @@ def item_lines(cl: Dict[str, Any], I: Interner, hashes: Dict[str, str]) -> List[
                     L.append(f"ITEM {core} message {I(n)} {mid} {h} {spec(fields)}")
             for rid in reserved_ids(fs.get("reserved", [])):
                 n = f"_RESERVED_{rid:06d}"
-                L.append(f"ITEM {core} signal {I(n)} {rid} {int(hashes.get('m:' + n, '0'), 16)}")
+                L.append(f"ITEM {core} reserved {I(n)} {rid} {int(hashes.get('m:' + n, '0'), 16)}")
     return L
+
+
+# ------------------------------------------------------------------------------------------------
+# the real combined YAML -> canonical lines (what `Drv/Emit.lean: yamlLines` prints for the model)
+# ------------------------------------------------------------------------------------------------
+SECTION_NO = {"constants": 0, "string_constants": 1, "aliases": 2, "host_ids": 3, "module_ids": 4, "struct_defs": 5,
+              "message_defs": 6}
+
+
+def combined_lines(text: str, I: Interner) -> Tuple[List[str], Dict[str, Any]]:
+    """Read `<name>_combined.yaml` with ruamel's safe loader (not with pyrtma's parser), keep the key order of the file,
+    evaluate constant and array-length expressions with gen_core's arithmetic evaluator (constants in file order), expand
+    the `_RESERVED_` id list in place.  Returns (lines, notes); notes = what is outside the model (metadata, options)."""
+    from ruamel.yaml import YAML
+    from . import gen_core
+    data = YAML(typ="safe").load(text)
+    notes: Dict[str, Any] = {"keys": list(data.keys()), "imports": data.get("imports"),
+                             "compiler_options": dict(data.get("compiler_options") or {})}
+    env: Dict[str, Any] = {}
+    # constants may be used by any length expression whatever the key order of the file is
+    for n, e in (data.get("constants") or {}).items():
+        env[n] = gen_core.eval_expr(e, env)
+    L: List[str] = [f"opt IMPORT_COREDEFS {1 if notes['compiler_options'].get('IMPORT_COREDEFS', True) else 0}",
+                    f"imports {len(notes['imports'] or [])}"]
+
+    def spec(fd) -> str:
+        if isinstance(fd, str):
+            return f"R {I(fd)}"
+        out = []
+        for fn, sp in (fd or {}).items():
+            m = re.fullmatch(r"\s*([\s\w]*?)\s*(?:\[(.*)\])?", sp)
+            ty, ln = m.group(1).strip(), m.group(2)
+            out.append(f"{I(fn)}:{I(ty)}:{'-' if ln is None else int(gen_core.eval_expr(ln.strip(), env))}")
+        return " ".join(["L"] + out)
+
+    for key, val in data.items():
+        if key not in SECTION_NO:
+            continue
+        k = SECTION_NO[key]
+        rows: List[str] = []
+        for n, v in (val or {}).items():
+            if k == 0:
+                x = env[n]
+                rows.append(f"const {I(n)} " + (f"f {struct.unpack('<Q', struct.pack('<d', x))[0]}" if isinstance(x, float)
+                                                else f"i {x}"))
+            elif k == 1:
+                rows.append(f"str {I(n)} {I(chr(34) + v + chr(34))}")
+            elif k == 2:
+                rows.append(f"alias {I(n)} {I(v)}")
+            elif k == 3:
+                rows.append(f"host {I(n)} {v}")
+            elif k == 4:
+                rows.append(f"mod {I(n)} {v}")
+            elif k == 5:
+                rows.append(f"struct {I(n)} {spec(v['fields'])}")
+            elif n == "_RESERVED_":
+                for rid in reserved_ids(list(v["id"])):
+                    rows.append(f"reserved {I(f'_RESERVED_{rid:06d}')} {rid}")
+            elif v["fields"] is None:
+                rows.append(f"signal {I(n)} {v['id']}")
+            else:
+                rows.append(f"message {I(n)} {v['id']} {spec(v['fields'])}")
+        L.append(f"sec {k} {len(rows)}")
+        L += rows
+    return L, notes
 
 
 # ------------------------------------------------------------------------------------------------
@@ -282,6 +374,7 @@ def classify(P, e: BaseException) -> str:
 def write_closure(cl: Dict[str, Any], d: Path):
     d.mkdir(parents=True, exist_ok=True)
     for fn, fs in cl["files"].items():
+        (d / fn).parent.mkdir(parents=True, exist_ok=True)
         (d / fn).write_text(file_yaml(fs))
 
 
@@ -322,6 +415,26 @@ def real_compile(cl: Dict[str, Any], src: Path, out: Path, cwd: Optional[Path] =
     finally:
         os.chdir(old)
     return ["ok"], ""
+
+
+def env_toks(cwd, root_spelled, I: Interner) -> List[str]:
+    c = path_toks(os.path.realpath(cwd), I)
+    return [str(len(c))] + c + spelled_toks(root_spelled, I)
+
+
+def src_lines(py_text: str, I: Interner) -> List[str]:
+    """`type_source` of every class of the generated Python module: `SRC <name> <path components>`"""
+    L = []
+    for node in ast.parse(py_text).body:
+        if not isinstance(node, ast.ClassDef):
+            continue
+        for b in node.body:
+            if isinstance(b, ast.AnnAssign) and isinstance(b.target, ast.Name) and b.target.id == "type_source" \
+                    and isinstance(b.value, ast.Constant) and isinstance(b.value.value, str):
+                n = node.name[4:] if node.name.startswith("MDF_") else node.name
+                segs = ["^" if c == ".." else "." if c == "." else str(I(c)) for c in b.value.value.split("/") if c != ""]
+                L.append(" ".join(["SRC", str(I(n))] + segs))
+    return L
 
 
 def reg_lines(p, I: Interner, tag: str = "REG") -> List[str]:
@@ -999,7 +1112,10 @@ def run_closure(cid: str, cl: Dict[str, Any], tmp_root: Path, want: Dict[str, bo
         skip_hdr = (not cl.get("coredefs")) and not has_hdr
         blk = [f"CASE {cid} {1 if cl.get('auto_pad', True) else 0} {1 if cl.get('documented', True) else 0} "
                f"{1 if skip_hdr else 0}"]
-        blk += item_lines(cl, I, hashes)
+        blk += item_lines(cl, I, hashes, with_files=True, src_dir=src)
+        blk.append(" ".join(["PKG", str(I("core_defs"))] + path_toks(os.path.realpath(C.REPO / "src" / "pyrtma"), I)))
+        # the environment of the first compile run: the harness's working directory, the root path spelled absolutely
+        blk.append(" ".join(["ENV"] + env_toks(os.getcwd(), root, I)))
         out = work / "out"
         if outcome == ["ok"]:
             oc2, err2 = real_compile(cl, root, out, python=True, javascript=True, matlab=True, c_lang=True, combined=True)
@@ -1035,6 +1151,7 @@ def run_closure(cid: str, cl: Dict[str, Any], tmp_root: Path, want: Dict[str, bo
             jsS = _safe(parse_js, texts["js"], I, (node or {}).get("fresh"), default=["bad unparsable-js"])
             mS = _safe(lambda t, i: _fix_m_refs(parse_m(t, i)), texts["m"], I, default=["bad unparsable-m"])
             blk += ["PY " + s for s in pyS] + ["C " + s for s in cS] + ["JS " + s for s in jsS] + ["M " + s for s in mS]
+            blk += _safe(src_lines, texts["py"], I, default=["SRC 0 unparsable"])
             if want.get("probes"):
                 pr = probe_python(out)
                 obs["py_probe_error"] = pr.get("error", "")
@@ -1072,6 +1189,12 @@ def run_closure(cid: str, cl: Dict[str, Any], tmp_root: Path, want: Dict[str, bo
                                    f"{','.join(str(f[1]) for f in pc['fields']) or '-'} {pc['sizeof']} {pc['type_size']}")
                     obs["measured"] = len(g["layout"])
             if want.get("roundtrip"):
+                try:
+                    ylines, ynotes = combined_lines((out / "defs_combined.yaml").read_text(), I)
+                except Exception as e:  # noqa: BLE001  (a combined file that is not even YAML any more: observation)
+                    ylines, ynotes = [f"unreadable {type(e).__name__}"], {"error": str(e)[:200]}
+                blk += ["YAML " + y for y in ylines]
+                obs["combined_notes"] = ynotes
                 oc3, p3, err3 = real_parse(cl, out / "defs_combined.yaml", coredefs=False)
                 obs["roundtrip"] = " ".join(oc3) + (" " + err3 if err3 else "")
                 if p3 is not None:
@@ -1085,6 +1208,7 @@ def run_closure(cid: str, cl: Dict[str, Any], tmp_root: Path, want: Dict[str, bo
                 out2 = work / "elsewhere" / "out2"
                 (work / "elsewhere").mkdir()
                 rel = os.path.relpath(root, work / "elsewhere")
+                blk.append(" ".join(["ENV"] + env_toks(work / "elsewhere", rel, I)))
                 oc4, err4 = real_compile(cl, Path(rel), out2, cwd=work / "elsewhere", python=True, javascript=True,
                                          matlab=True, c_lang=True, combined=True)
                 diffs = []
@@ -1097,6 +1221,7 @@ def run_closure(cid: str, cl: Dict[str, Any], tmp_root: Path, want: Dict[str, bo
                 # third compile: from the parent directory, root file spelled with a directory component
                 out3 = work / "out3"
                 rel3 = os.path.relpath(root, work)
+                blk.append(" ".join(["ENV"] + env_toks(work, rel3, I)))
                 oc5, err5 = real_compile(cl, Path(rel3), out3, cwd=work, python=True, javascript=True,
                                          matlab=True, c_lang=True, combined=True)
                 if oc5 != ["ok"]:
